@@ -3,8 +3,9 @@
 (* C01 reference: forward-mode AD values and Jacobians.                    *)
 (*                                                                         *)
 (* WHAT IS MODELLED.  An AdArray of size n over NN independent scalars is  *)
-(* a sequence of n DUAL NUMBERS  [val, jac]  with jac a sequence of NN     *)
-(* numbers: an element  val + sum_j jac[j] eps_j  of the ring              *)
+(* a sequence of n DUAL NUMBERS  [val, jac]  with jac a sequence of at     *)
+(* most NN numbers (missing trailing entries are 0; a constant has the     *)
+(* empty row): an element  val + sum_j jac[j] eps_j  of the ring           *)
 (* Q[eps_1..eps_NN] / (eps_i eps_j).  Evaluating an expression in that     *)
 (* ring yields its value and its exact gradient.  The ring operations      *)
 (* (DAdd DSub DNeg DMul DInv DDiv DPowInt) are written in closed form      *)
@@ -43,8 +44,8 @@
 (***************************************************************************)
 EXTENDS Rat, TLC
 
-CONSTANTS VarSizes,   \* <<n_1, .., n_V>>: sizes of the independent variables (initAdArrays)
-          Points,     \* sequence of points; a point = <<values of var 1, .., values of var V>>, values <<n, d>>
+CONSTANTS Points,     \* sequence of points; a point = <<values of var 1, .., values of var V>> (values <<n, d>>): the
+                      \* independent variables (initAdArrays) of the point, their number and sizes
           FCat,       \* scalars: sequence of [v |-> <<n, d>>, t |-> "float" | "int"]   (t is for the harness)
           ACat,       \* numpy arrays: sequence of sequences of <<n, d>>
           MCat,       \* left sparse matrices: sequence of [m |-> rows of integers, fmt |-> "csr" | "csc"]
@@ -52,11 +53,13 @@ CONSTANTS VarSizes,   \* <<n_1, .., n_V>>: sizes of the independent variables (i
           FnCat,      \* function instances: sequence of [name |-> STRING, p |-> parameters <<n, d>>]
           H           \* rationals are folded while |numerator|, denominator <= H  (H * H * 2 < 2^31)
 
-NV == Len(VarSizes)
-RECURSIVE SumTo(_)
-SumTo(i) == IF i = 0 THEN 0 ELSE VarSizes[i] + SumTo(i - 1)
-NN == SumTo(NV)                       \* number of independent scalars = columns of every Jacobian
-Off(i) == SumTo(i - 1)
+\* P is a point: number of variables, offset of variable i, number of independent scalars (= Jacobian columns)
+RECURSIVE OffP(_, _)
+OffP(P, i) == IF i <= 1 THEN 0 ELSE Len(P[i - 1]) + OffP(P, i - 1)
+NNP(P) == OffP(P, Len(P) + 1)
+\* TLC evaluates function constructors lazily (the body is re-evaluated at every application): every sequence built
+\* here is forced into a concrete tuple, otherwise the cost of Eval is exponential in the depth of the program
+Tup(f) == f \o <<>>
 
 (***************************************************************************)
 (* Numbers                                                                 *)
@@ -72,17 +75,31 @@ IsOne(a) == IsQ(a) /\ a[2] = 1 /\ a[3] = 1
 SmallR(r) == Abs(r[1]) <= H /\ r[2] <= H
 Fold(r, alt) == IF SmallR(r) THEN Q(r) ELSE alt
 
-NNeg(a) == IF IsQ(a) THEN Q(RNeg(Rt(a))) ELSE <<"neg", a>>
-NAdd(a, b) == IF IsQ(a) /\ IsQ(b) THEN Fold(RAdd(Rt(a), Rt(b)), <<"add", a, b>>)
-              ELSE IF IsZero(a) THEN b ELSE IF IsZero(b) THEN a ELSE <<"add", a, b>>
-NSub(a, b) == IF IsQ(a) /\ IsQ(b) THEN Fold(RSub(Rt(a), Rt(b)), <<"sub", a, b>>)
-              ELSE IF IsZero(b) THEN a ELSE IF IsZero(a) THEN NNeg(b) ELSE <<"sub", a, b>>
-NMul(a, b) == IF IsQ(a) /\ IsQ(b) THEN Fold(RMul(Rt(a), Rt(b)), <<"mul", a, b>>)
-              ELSE IF IsZero(a) \/ IsZero(b) THEN QZero
-              ELSE IF IsOne(a) THEN b ELSE IF IsOne(b) THEN a ELSE <<"mul", a, b>>
+\* fast paths first (most Jacobian entries are 0, most values integers); the general path normalises by the gcd
+FoldI(n, alt) == IF n <= H /\ -n <= H THEN <<"q", n, 1>> ELSE alt
+BothQ(a, b) == a[1] = "q" /\ b[1] = "q"
+BothInt(a, b) == a[3] = 1 /\ b[3] = 1
+NNeg(a) == IF IsQ(a) THEN <<"q", -a[2], a[3]>> ELSE <<"neg", a>>
+NAdd(a, b) == IF IsZero(a) THEN b ELSE IF IsZero(b) THEN a
+              ELSE IF BothQ(a, b)
+                   THEN (IF BothInt(a, b) THEN FoldI(a[2] + b[2], <<"add", a, b>>)
+                         ELSE Fold(RAdd(Rt(a), Rt(b)), <<"add", a, b>>))
+                   ELSE <<"add", a, b>>
+NSub(a, b) == IF IsZero(b) THEN a ELSE IF IsZero(a) THEN NNeg(b)
+              ELSE IF BothQ(a, b)
+                   THEN (IF BothInt(a, b) THEN FoldI(a[2] - b[2], <<"sub", a, b>>)
+                         ELSE Fold(RSub(Rt(a), Rt(b)), <<"sub", a, b>>))
+                   ELSE <<"sub", a, b>>
+NMul(a, b) == IF IsZero(a) \/ IsZero(b) THEN QZero
+              ELSE IF IsOne(a) THEN b ELSE IF IsOne(b) THEN a
+              ELSE IF BothQ(a, b)
+                   THEN (IF BothInt(a, b) THEN FoldI(a[2] * b[2], <<"mul", a, b>>)
+                         ELSE Fold(RMul(Rt(a), Rt(b)), <<"mul", a, b>>))
+                   ELSE <<"mul", a, b>>
 \* b is known to be non-zero
-NDiv(a, b) == IF IsQ(a) /\ IsQ(b) THEN Fold(RDiv(Rt(a), Rt(b)), <<"div", a, b>>)
-              ELSE IF IsZero(a) THEN QZero ELSE IF IsOne(b) THEN a ELSE <<"div", a, b>>
+NDiv(a, b) == IF IsZero(a) THEN QZero ELSE IF IsOne(b) THEN a
+              ELSE IF BothQ(a, b) THEN Fold(RDiv(Rt(a), Rt(b)), <<"div", a, b>>)
+              ELSE <<"div", a, b>>
 RECURSIVE NSum(_)
 NSum(s) == IF s = <<>> THEN QZero ELSE NAdd(Head(s), NSum(Tail(s)))
 
@@ -174,18 +191,21 @@ Sign3(u) == IF IsQ(u) THEN (IF u[2] > 0 THEN "pos" ELSE IF u[2] < 0 THEN "neg" E
 (***************************************************************************)
 (* Dual numbers                                                            *)
 (***************************************************************************)
-ZeroJ == [j \in 1..NN |-> QZero]
-UnitJ(k) == [j \in 1..NN |-> IF j = k THEN QOne ELSE QZero]
-DConst(c) == [val |-> c, jac |-> ZeroJ]
+\* A Jacobian row is a sequence of numbers; entries beyond its length are 0 (a constant has the empty row <<>>).
+JGet(J, j) == IF j <= Len(J) THEN J[j] ELSE QZero
+UnitJ(n, k) == Tup([j \in 1..n |-> IF j = k THEN QOne ELSE QZero])
+DConst(c) == [val |-> c, jac |-> <<>>]
 DOne == DConst(QOne)
 DZero == DConst(QZero)
-JScale(c, J) == [j \in 1..NN |-> NMul(c, J[j])]
-JAdd(J, K) == [j \in 1..NN |-> NAdd(J[j], K[j])]
-JSub(J, K) == [j \in 1..NN |-> NSub(J[j], K[j])]
+JScale(c, J) == IF J = <<>> \/ IsZero(c) THEN <<>> ELSE Tup([j \in 1..Len(J) |-> NMul(c, J[j])])
+JAdd(J, K) == IF J = <<>> THEN K ELSE IF K = <<>> THEN J
+              ELSE Tup([j \in 1..Max2(Len(J), Len(K)) |-> NAdd(JGet(J, j), JGet(K, j))])
+JNeg(J) == Tup([j \in 1..Len(J) |-> NNeg(J[j])])
+JSub(J, K) == JAdd(J, JNeg(K))
 
 DAdd(a, b) == [val |-> NAdd(a.val, b.val), jac |-> JAdd(a.jac, b.jac)]
 DSub(a, b) == [val |-> NSub(a.val, b.val), jac |-> JSub(a.jac, b.jac)]
-DNeg(a) == [val |-> NNeg(a.val), jac |-> [j \in 1..NN |-> NNeg(a.jac[j])]]
+DNeg(a) == [val |-> NNeg(a.val), jac |-> JNeg(a.jac)]
 DScale(c, a) == [val |-> NMul(c, a.val), jac |-> JScale(c, a.jac)]
 \* product (Leibniz) rule
 DMul(a, b) == [val |-> NMul(a.val, b.val), jac |-> JAdd(JScale(b.val, a.jac), JScale(a.val, b.jac))]
@@ -194,7 +214,8 @@ DInv(a) == [val |-> NDiv(QOne, a.val), jac |-> JScale(NNeg(NDiv(QOne, NMul(a.val
 \* quotient rule  (b.val # 0)
 DDiv(a, b) == [val |-> NDiv(a.val, b.val),
                jac |-> LET bb == NMul(b.val, b.val)
-                       IN [j \in 1..NN |-> NDiv(NSub(NMul(a.jac[j], b.val), NMul(a.val, b.jac[j])), bb)]]
+                       IN Tup([j \in 1..Max2(Len(a.jac), Len(b.jac)) |->
+                                 NDiv(NSub(NMul(JGet(a.jac, j), b.val), NMul(a.val, JGet(b.jac, j))), bb)])]
 \* power rule, integer exponent  (a.val # 0 if n <= 0)
 DPowInt(a, n) == IF n = 0 THEN DOne
                  ELSE [val |-> NPowI(a.val, n), jac |-> JScale(NMul(QInt(n), NPowI(a.val, n - 1)), a.jac)]
@@ -203,10 +224,12 @@ DPowGen(b, e) == LET v == NPow(b.val, e.val)
                  IN [val |-> v,
                      jac |-> JAdd(JScale(NMul(e.val, NPow(b.val, NSub(e.val, QOne))), b.jac),
                                   JScale(NMul(v, NLog(b.val)), e.jac))]
+RECURSIVE JSum(_)
+JSum(q) == IF q = <<>> THEN <<>> ELSE JAdd(Head(q), JSum(Tail(q)))
 RECURSIVE DSum(_)
 DSum(s) == IF s = <<>> THEN DZero ELSE DAdd(Head(s), DSum(Tail(s)))
 \* left multiplication of a vector of duals by an integer matrix (rows of integers)
-MatApply(M, v) == [r \in 1..Len(M) |-> DSum([c \in 1..Len(v) |-> DScale(QInt(M[r][c]), v[c])])]
+MatApply(M, v) == Tup([r \in 1..Len(M) |-> DSum(Tup([c \in 1..Len(v) |-> DScale(QInt(M[r][c]), v[c])]))])
 
 (***************************************************************************)
 (* The calculus table.  FnEval(name, p, u) = [bad, val, der]: value and    *)
@@ -277,14 +300,14 @@ OkD(d) == [bad |-> "", d |-> d]
 BadD(w) == [bad |-> w, d |-> DZero]
 Collect(s) == IF \E i \in 1..Len(s) : s[i].bad # ""
               THEN Bad(s[CHOOSE i \in 1..Len(s) : s[i].bad # "" /\ \A j \in 1..(i - 1) : s[j].bad = ""].bad)
-              ELSE AD([i \in 1..Len(s) |-> s[i].d])
+              ELSE AD(Tup([i \in 1..Len(s) |-> s[i].d]))
 
 BinaryOps == {"add", "sub", "mul", "div", "pow", "max"}
 IsNumV(X) == X.k \in {"ad", "f", "arr"}
 SizeV(X) == IF X.k = "f" THEN 0 ELSE Len(X.v)
 AsDuals(X, n) == CASE X.k = "ad"  -> X.v
-                   [] X.k = "f"   -> [i \in 1..n |-> DConst(X.v)]
-                   [] X.k = "arr" -> [i \in 1..n |-> DConst(X.v[i])]
+                   [] X.k = "f"   -> Tup([i \in 1..n |-> DConst(X.v)])
+                   [] X.k = "arr" -> Tup([i \in 1..n |-> DConst(X.v[i])])
 \* Python supports the operation: an AdArray on at least one side, equal sizes
 BinOK(A, B) == /\ IsNumV(A) /\ IsNumV(B) /\ (A.k = "ad" \/ B.k = "ad")
                /\ (SizeV(A) = 0 \/ SizeV(B) = 0 \/ SizeV(A) = SizeV(B))
@@ -322,33 +345,33 @@ FnElem(fn, a) == LET r == FnEval(fn.name, fn.p, a.val)
 
 \* l2_norm(dim, .): Euclidean norm of consecutive blocks of dim components; kink where a block vanishes
 L2Block(v, dim, b) ==
-  LET idx == [i \in 1..dim |-> (b - 1) * dim + i]
-      ss == NSum([i \in 1..dim |-> Sq(v[idx[i]].val)])
+  LET idx == Tup([i \in 1..dim |-> (b - 1) * dim + i])
+      ss == NSum(Tup([i \in 1..dim |-> Sq(v[idx[i]].val)]))
       nrm == NSqrt(ss)
       known == \E i \in 1..dim : Sign3(v[idx[i]].val) \in {"pos", "neg"}
   IN IF IsZero(ss) THEN BadD("kink")
      ELSE IF ~IsQ(ss) /\ ~known THEN BadD("undecidable")
      ELSE OkD([val |-> nrm,
-               jac |-> [j \in 1..NN |-> NSum([i \in 1..dim |-> NMul(NDiv(v[idx[i]].val, nrm), v[idx[i]].jac[j])])]])
+               jac |-> JSum(Tup([i \in 1..dim |-> JScale(NDiv(v[idx[i]].val, nrm), v[idx[i]].jac)]))])
 L2(v, dim) == IF dim < 1 \/ Len(v) % dim # 0 THEN Bad("type")
-              ELSE Collect([b \in 1..(Len(v) \div dim) |-> L2Block(v, dim, b)])
+              ELSE Collect(Tup([b \in 1..(Len(v) \div dim) |-> L2Block(v, dim, b)]))
 
 FnNode(A, fn) == IF fn.name = "l2_norm" THEN L2(A.v, fn.p[1][1])
-                 ELSE Collect([i \in 1..Len(A.v) |-> FnElem(fn, A.v[i])])
+                 ELSE Collect(Tup([i \in 1..Len(A.v) |-> FnElem(fn, A.v[i])]))
 
 \* rows (1-based) selected by a Python row key on an array of size n; <<>> if the key is not applicable
 SliceRows(s, n) ==
   CASE s.py = "int"   -> IF s.a[1] < n THEN <<s.a[1] + 1>> ELSE <<>>
-    [] s.py = "array" -> IF \A i \in 1..Len(s.a) : s.a[i] < n THEN [i \in 1..Len(s.a) |-> s.a[i] + 1] ELSE <<>>
+    [] s.py = "array" -> IF \A i \in 1..Len(s.a) : s.a[i] < n THEN Tup([i \in 1..Len(s.a) |-> s.a[i] + 1]) ELSE <<>>
     [] s.py = "slice" -> LET stop == Min2(s.a[2], n)
                              cnt == IF stop <= s.a[1] THEN 0 ELSE ((stop - s.a[1] - 1) \div s.a[3]) + 1
-                         IN [i \in 1..cnt |-> s.a[1] + (i - 1) * s.a[3] + 1]
+                         IN Tup([i \in 1..cnt |-> s.a[1] + (i - 1) * s.a[3] + 1])
     [] OTHER -> <<>>
 
 Operand(k, i, P) ==
-  CASE k = "var" -> AD([c \in 1..VarSizes[i] |-> [val |-> Q(P[i][c]), jac |-> UnitJ(Off(i) + c)]])
+  CASE k = "var" -> AD(Tup([c \in 1..Len(P[i]) |-> [val |-> Q(P[i][c]), jac |-> UnitJ(NNP(P), OffP(P, i) + c)]]))
     [] k = "f"   -> [k |-> "f", v |-> Q(FCat[i].v)]
-    [] k = "arr" -> [k |-> "arr", v |-> [c \in 1..Len(ACat[i]) |-> Q(ACat[i][c])]]
+    [] k = "arr" -> [k |-> "arr", v |-> Tup([c \in 1..Len(ACat[i]) |-> Q(ACat[i][c])])]
     [] k = "mat" -> [k |-> "mat", v |-> MCat[i].m]
     [] k = "sl"  -> [k |-> "sl", v |-> SCat[i]]
     [] k = "fn"  -> [k |-> "fn", v |-> FnCat[i]]
@@ -362,13 +385,13 @@ Comb(op, A, B) ==
          ELSE LET n == Max2(SizeV(A), SizeV(B))
                   a == AsDuals(A, n)
                   b == AsDuals(B, n)
-              IN Collect([i \in 1..n |-> Elem(op, a[i], b[i], B.k)])
-    [] op = "neg"    -> IF A.k = "ad" THEN AD([i \in 1..Len(A.v) |-> DNeg(A.v[i])]) ELSE Bad("type")
+              IN Collect(Tup([i \in 1..n |-> Elem(op, a[i], b[i], B.k)]))
+    [] op = "neg"    -> IF A.k = "ad" THEN AD(Tup([i \in 1..Len(A.v) |-> DNeg(A.v[i])])) ELSE Bad("type")
     [] op = "matmul" -> IF A.k = "mat" /\ B.k = "ad" /\ Len(A.v[1]) = Len(B.v) THEN AD(MatApply(A.v, B.v))
                         ELSE Bad("type")
     [] op = "slice"  -> IF A.k = "ad" /\ B.k = "sl"
                         THEN LET rows == SliceRows(B.v, Len(A.v))
-                             IN IF rows = <<>> THEN Bad("type") ELSE AD([r \in 1..Len(rows) |-> A.v[rows[r]]])
+                             IN IF rows = <<>> THEN Bad("type") ELSE AD(Tup([r \in 1..Len(rows) |-> A.v[rows[r]]]))
                         ELSE Bad("type")
     [] op = "fn"     -> IF A.k = "ad" /\ B.k = "fn" THEN FnNode(A, B.v) ELSE Bad("type")
     [] OTHER         -> [k |-> "none"]
@@ -378,13 +401,52 @@ RECURSIVE Eval(_, _)
 Eval(t, P) == IF Len(t) = 5 THEN Comb(t[1], Operand(t[2], t[3], P), Operand(t[4], t[5], P))
               ELSE Comb(t[1], Eval(t[2], P), Eval(t[3], P))
 
-AllQDual(d) == IsQ(d.val) /\ \A j \in 1..NN : IsQ(d.jac[j])
+(***************************************************************************)
+(* Static typing of programs (cheap: no arithmetic): kind and size of the  *)
+(* value, "bad" where Python does not support the operation.  TType agrees *)
+(* with Eval on the "type" failures; the enumerator uses it to list only   *)
+(* well-typed programs.                                                    *)
+(***************************************************************************)
+TT(k, n) == [k |-> k, n |-> n]
+TBad == TT("bad", 0)
+TOperand(k, i, P) ==
+  CASE k = "var" -> TT("ad", Len(P[i]))
+    [] k = "f"   -> TT("f", 0)
+    [] k = "arr" -> TT("arr", Len(ACat[i]))
+    [] k \in {"mat", "sl", "fn"} -> TT(k, i)
+    [] OTHER     -> TT("none", 0)
+TComb(op, A, B) ==
+  IF A.k = "bad" \/ B.k = "bad" THEN TBad ELSE
+  CASE op \in {"leaf", "const", "id"} -> A
+    [] op \in BinaryOps ->
+         IF /\ A.k \in {"ad", "f", "arr"} /\ B.k \in {"ad", "f", "arr"} /\ (A.k = "ad" \/ B.k = "ad")
+            /\ (A.k = "f" \/ B.k = "f" \/ A.n = B.n)
+         THEN TT("ad", Max2(A.n, B.n)) ELSE TBad
+    [] op = "neg"    -> IF A.k = "ad" THEN A ELSE TBad
+    [] op = "matmul" -> IF A.k = "mat" /\ B.k = "ad" /\ Len(MCat[A.n].m[1]) = B.n
+                        THEN TT("ad", Len(MCat[A.n].m)) ELSE TBad
+    [] op = "slice"  -> IF A.k = "ad" /\ B.k = "sl"
+                        THEN LET r == SliceRows(SCat[B.n], A.n) IN IF r = <<>> THEN TBad ELSE TT("ad", Len(r))
+                        ELSE TBad
+    [] op = "fn"     -> IF A.k = "ad" /\ B.k = "fn"
+                        THEN (IF FnCat[B.n].name = "l2_norm"
+                              THEN (LET d == FnCat[B.n].p[1][1]
+                                    IN IF d >= 1 /\ A.n % d = 0 THEN TT("ad", A.n \div d) ELSE TBad)
+                              ELSE A)
+                        ELSE TBad
+    [] OTHER         -> TT("none", 0)
+RECURSIVE TType(_, _)
+TType(t, P) == IF Len(t) = 5 THEN TComb(t[1], TOperand(t[2], t[3], P), TOperand(t[4], t[5], P))
+               ELSE TComb(t[1], TType(t[2], P), TType(t[3], P))
+WellTyped(t, P) == TType(t, P).k = "ad"
+
+AllQDual(d) == IsQ(d.val) /\ \A j \in 1..Len(d.jac) : IsQ(d.jac[j])
 \* the entries of an AdArray value that are terms: <<row, column (0 = val), term>>
-SymEntries(v) ==
-  LET all == [k \in 1..(Len(v) * (NN + 1)) |->
-                LET i == ((k - 1) \div (NN + 1)) + 1
-                    j == (k - 1) % (NN + 1)
-                IN <<i, j, IF j = 0 THEN v[i].val ELSE v[i].jac[j]>>]
+SymEntries(v, nn) ==
+  LET all == Tup([k \in 1..(Len(v) * (nn + 1)) |->
+                LET i == ((k - 1) \div (nn + 1)) + 1
+                    j == (k - 1) % (nn + 1)
+                IN <<i, j, IF j = 0 THEN v[i].val ELSE JGet(v[i].jac, j)>>])
   IN SelectSeq(all, LAMBDA e : ~IsQ(e[3]))
 
 (***************************************************************************)
@@ -392,39 +454,48 @@ SymEntries(v) ==
 (* product of Q[eps]/(eps_i eps_j) written as the bilinear extension of    *)
 (* the products of the basis 1, eps_1, .., eps_NN.                         *)
 (***************************************************************************)
-Coef(a, m) == IF m = 0 THEN a.val ELSE a.jac[m]
+Coef(a, m) == IF m = 0 THEN a.val ELSE JGet(a.jac, m)
 MonoMul(m1, m2) == IF m1 = 0 THEN m2 ELSE IF m2 = 0 THEN m1 ELSE -1       \* -1: the product vanishes
-PolyCoef(a, b, m) == NSum([k \in 1..((NN + 1) * (NN + 1)) |->
-                             LET m1 == (k - 1) \div (NN + 1)
-                                 m2 == (k - 1) % (NN + 1)
-                             IN IF MonoMul(m1, m2) = m THEN NMul(Coef(a, m1), Coef(b, m2)) ELSE QZero])
-PolyMul(a, b) == [val |-> PolyCoef(a, b, 0), jac |-> [j \in 1..NN |-> PolyCoef(a, b, j)]]
-RECURSIVE PolyPow(_, _)
-PolyPow(a, n) == IF n = 0 THEN DOne ELSE PolyMul(a, PolyPow(a, n - 1))
-SameIfQ(x, y) == (AllQDual(x) /\ AllQDual(y)) => x = y
+PolyCoef(a, b, m, nn) == NSum(Tup([k \in 1..((nn + 1) * (nn + 1)) |->
+                                 LET m1 == (k - 1) \div (nn + 1)
+                                     m2 == (k - 1) % (nn + 1)
+                                 IN IF MonoMul(m1, m2) = m THEN NMul(Coef(a, m1), Coef(b, m2)) ELSE QZero]))
+PolyMul(a, b, nn) == [val |-> PolyCoef(a, b, 0, nn), jac |-> Tup([j \in 1..nn |-> PolyCoef(a, b, j, nn)])]
+\* equality of dual numbers (rows are compared up to trailing zeros), demanded only if everything folded to rationals
+DEq(x, y, nn) == x.val = y.val /\ \A j \in 1..nn : JGet(x.jac, j) = JGet(y.jac, j)
+SameIfQ(x, y, nn) == (AllQDual(x) /\ AllQDual(y)) => DEq(x, y, nn)
 
-LawsOf(a, b) ==
+LawsOf(a, b, nn) ==
   (AllQDual(a) /\ AllQDual(b)) =>
     LET c == DAdd(a, DScale(QInt(2), b))
-    IN /\ SameIfQ(DMul(a, b), PolyMul(a, b))                                     \* Leibniz = ring product
-       /\ SameIfQ(DMul(a, b), DMul(b, a))
-       /\ SameIfQ(DMul(a, DMul(b, c)), DMul(DMul(a, b), c))
-       /\ SameIfQ(DMul(a, DAdd(b, c)), DAdd(DMul(a, b), DMul(a, c)))             \* distributivity
-       /\ SameIfQ(DAdd(a, DNeg(a)), DZero)
-       /\ SameIfQ(DSub(a, b), DAdd(a, DNeg(b)))
-       /\ (~IsZero(b.val) => /\ SameIfQ(DMul(b, DInv(b)), DOne)                  \* x * (1/x) = 1
-                             /\ SameIfQ(DDiv(a, b), DMul(a, DInv(b))))           \* quotient rule
-       /\ \A n \in 0..3 : SameIfQ(DPowInt(a, n), PolyPow(a, n))                  \* power rule = iterated product
-       /\ (~IsZero(a.val) => \A n \in 1..3 : SameIfQ(DPowInt(a, -n), DInv(PolyPow(a, n))))
-       /\ (~IsZero(a.val) => SameIfQ(DMul(DPowInt(a, 2), DPowInt(a, -3)), DPowInt(a, -1)))
+        ab == DMul(a, b)
+        a2 == PolyMul(a, a, nn)
+        a3 == PolyMul(a, a2, nn)
+        S(x, y) == SameIfQ(x, y, nn)
+    IN /\ S(ab, PolyMul(a, b, nn))                                       \* Leibniz = ring product
+       /\ S(ab, DMul(b, a))
+       /\ S(DMul(a, DMul(b, c)), DMul(ab, c))
+       /\ S(DMul(a, DAdd(b, c)), DAdd(ab, DMul(a, c)))                    \* distributivity
+       /\ S(DAdd(a, DNeg(a)), DZero)
+       /\ S(DSub(a, b), DAdd(a, DNeg(b)))
+       /\ (~IsZero(b.val) => /\ S(DMul(b, DInv(b)), DOne)                 \* x * (1/x) = 1
+                             /\ S(DDiv(a, b), DMul(a, DInv(b))))          \* quotient rule
+       /\ S(DPowInt(a, 0), DOne) /\ S(DPowInt(a, 1), a)                   \* power rule = iterated product
+       /\ S(DPowInt(a, 2), a2) /\ S(DPowInt(a, 3), a3)
+       /\ (~IsZero(a.val) => /\ S(DPowInt(a, -1), DInv(a))
+                             /\ S(DPowInt(a, -2), DInv(a2))
+                             /\ S(DPowInt(a, -3), DInv(a3))
+                             /\ S(DMul(DPowInt(a, 2), DPowInt(a, -3)), DPowInt(a, -1)))
 \* the matrix product is linear
 AllQVec(u) == \A i \in 1..Len(u) : AllQDual(u[i])
-VAdd(u, v) == [i \in 1..Len(u) |-> DAdd(u[i], v[i])]
-LawLinearOf(M, u, v) ==
+VAdd(u, v) == Tup([i \in 1..Len(u) |-> DAdd(u[i], v[i])])
+VEq(x, y, nn) == Len(x) = Len(y) /\ \A i \in 1..Len(x) : DEq(x[i], y[i], nn)
+LawLinearOf(M, u, v, nn) ==
   (Len(u) = Len(v) /\ Len(M[1]) = Len(u) /\ AllQVec(u) /\ AllQVec(v)) =>
     LET x == MatApply(M, VAdd(u, v))
         y == VAdd(MatApply(M, u), MatApply(M, v))
-        z == MatApply(M, [i \in 1..Len(u) |-> DScale(QInt(3), u[i])])
-        w == [i \in 1..Len(M) |-> DScale(QInt(3), MatApply(M, u)[i])]
-    IN (AllQVec(x) /\ AllQVec(y) /\ AllQVec(z) /\ AllQVec(w)) => (x = y /\ z = w)
+        z == MatApply(M, Tup([i \in 1..Len(u) |-> DScale(QInt(3), u[i])]))
+        mu == MatApply(M, u)
+        w == Tup([i \in 1..Len(M) |-> DScale(QInt(3), mu[i])])
+    IN (AllQVec(x) /\ AllQVec(y) /\ AllQVec(z) /\ AllQVec(w)) => (VEq(x, y, nn) /\ VEq(z, w, nn))
 =============================================================================
